@@ -247,3 +247,23 @@ Proof.
   split; [exact Hok'|]; split; [exact Hl|]; split; [exact A|].
   intros r Hr'; rewrite B by exact Hr'; apply Hrows; exact Hr'.
 Qed.
+
+(** ** Soundness of the executable hypotheses check *)
+Lemma nodupb_sound l : nodupb l = true -> NoDup l.
+Proof.
+  induction l as [|x r IH]; cbn [nodupb]; intros H; [constructor|].
+  apply andb_prop in H; destruct H as [H1 H2]; constructor; [|apply IH; exact H2].
+  intros Hin; apply Bool.negb_true_iff in H1.
+  assert (E : existsb (Nat.eqb x) r = true) by (apply existsb_exists; exists x; split; [exact Hin|apply Nat.eqb_refl]).
+  congruence.
+Qed.
+
+Lemma alive_okb_sound s : alive_okb s = true -> alive_ok s /\ NoDup (alive_ids s).
+Proof.
+  unfold alive_okb, alive_ok; intros H; apply andb_prop in H; destruct H as [H1 H2].
+  split; [|apply nodupb_sound; exact H2].
+  apply Forall_forall; intros i Hi.
+  pose proof (proj1 (forallb_forall _ _) H1 i Hi) as Hx; cbv beta in Hx.
+  destruct (nth_error (pe (w_pool s)) i) as [[a g]|]; [|discriminate].
+  apply Nat.eqb_eq in Hx; cbn [fst] in Hx; subst a; exists g; reflexivity.
+Qed.
